@@ -88,7 +88,7 @@ def shape_request(rng, o, relative, scale=20.0, kinds=None, grid=None):
     q = (lambda v: round(v * grid) / grid) if grid else (lambda v: v)
     with_z = rng.random() < 0.5
     dz = q(rng.uniform(-scale / 2, scale / 2)) if with_z else 0.0
-    if with_z and rng.random() < 0.15:
+    if with_z and rng.random() < 0.15 and abs(o[2]) <= 2 * scale:
         dz = -o[2]          # target Z exactly 0 (a falsy coordinate that is nevertheless a request)
     zero_xy = rng.random() < 0.12   # same for X or Y where the target is free
     meta = {"kind": kind, "with_z": with_z}
